@@ -254,6 +254,9 @@ Definition scopes (h : state) : list Z := 0 :: 1 :: map fst (sc_parent (s_sc h))
 Fixpoint depth_f (h : state) (fuel : nat) (s : Z) : nat :=
   match fuel, parent_of h s with S f, Some p => S (depth_f h f p) | _, _ => O end.
 Definition depth (h : state) (s : Z) : nat := depth_f h (length (sc_parent (s_sc h))) s.
+Fixpoint root_f (h : state) (fuel : nat) (s : Z) : Z :=
+  match fuel, parent_of h s with S f, Some p => root_f h f p | _, _ => s end.
+Definition root_of (h : state) (s : Z) : Z := root_f h (length (sc_parent (s_sc h))) s.
 
 (* ---------------------------------------------------------------- Model.clone *)
 Definition vmap := list (valobj * valobj).     (* first binding wins: later dict writes are prepended *)
@@ -264,13 +267,16 @@ Definition vm_apply (m : vmap) (v : valobj) : valobj := match vm_get m v with So
 Fixpoint fresh_from (next : Z) (olds : list valobj) : list valobj :=
   match olds with [] => [] | o :: r => mkV next (v_rank o) :: fresh_from (next + 1) r end.
 
-Fixpoint clone_inputs (m : vmap) (ins : list (option valobj)) : option (list (option valobj)) :=
+(* allow = Cloner(allow_outer_scope_values=True): an input that is not in the value map is passed through
+   unchanged instead of raising *)
+Fixpoint clone_inputs (allow : bool) (m : vmap) (ins : list (option valobj)) : option (list (option valobj)) :=
   match ins with
   | [] => Some []
-  | None :: r => option_map (cons None) (clone_inputs m r)
+  | None :: r => option_map (cons None) (clone_inputs allow m r)
   | Some v :: r => match vm_get m v with
-                   | None => None       (* "outer-scope value": ValueError wrapped in RuntimeError *)
-                   | Some w => option_map (cons (Some w)) (clone_inputs m r)
+                   | None => if allow then option_map (cons (Some v)) (clone_inputs allow m r)
+                             else None       (* "outer-scope value": ValueError wrapped in RuntimeError *)
+                   | Some w => option_map (cons (Some w)) (clone_inputs allow m r)
                    end
   end.
 
@@ -290,32 +296,36 @@ Fixpoint flush (d : nat) (pend : pending) (m : vmap) : pending * vmap :=
   | (d', b) :: r => if (d <=? d')%nat then flush d r (b ++ m) else (pend, m)
   end.
 
-Fixpoint clone_nodes (h : state) (pend : pending) (m : vmap) (next : Z) (nodes : list (Z * node))
+Fixpoint clone_nodes (h : state) (allow : bool) (pend : pending) (m : vmap) (next : Z) (nodes : list (Z * node))
   : option (list (Z * node) * list (Z * str) * Z) :=
   match nodes with
   | [] => Some ([], [], next)
   | (n, nd) :: r =>
       let d := depth h (node_scope h n) in
       let '(pend1, m1) := flush d pend m in
-      match clone_inputs m1 (n_in nd) with
+      (* Function.clone has no allow_outer_scope_values: the flag concerns the main graph and its bodies *)
+      match clone_inputs (allow && (root_of h (node_scope h n) =? 0)) m1 (n_in nd) with
       | None => None
       | Some ins' =>
           let outs' := fresh_from next (n_out nd) in
           let own := rev (combine (n_out nd) outs') in
           let nd' := mkN ins' outs' (remap_dcs (own ++ m1) (n_dc nd)) in
           let names := map (fun p => (v_id (snd p), name_of h (fst p))) (combine (n_out nd) outs') in
-          match clone_nodes h ((d, own) :: pend1) m1 (next + Z.of_nat (length (n_out nd))) r with
+          match clone_nodes h allow ((d, own) :: pend1) m1 (next + Z.of_nat (length (n_out nd))) r with
           | None => None
           | Some (r', names', next') => Some ((n, nd') :: r', names ++ names', next')
           end
       end
   end.
 
-Definition clone (h : state) : state * res unit :=
+(* Model.clone(deep_copy=deep): deep only concerns the metadata stores — the configurations of the clone are the
+   SAME objects as the original's, so the cloned nodes' references stay registered.  allow = the model is
+   re-assembled from Graph.clone(allow_outer_scope_values=True) (+ Function.clone, same configurations). *)
+Definition clone (h : state) (deep allow : bool) : state * res unit :=
   let gin' := fresh_from (s_nextv h) (s_gin h) in
   let m0 := rev (combine (s_gin h) gin') in
   let names0 := map (fun p => (v_id (snd p), name_of h (fst p))) (combine (s_gin h) gin') in
-  match clone_nodes h [] m0 (s_nextv h + Z.of_nat (length (s_gin h))) (s_nodes h) with
+  match clone_nodes h allow [] m0 (s_nextv h + Z.of_nat (length (s_gin h))) (s_nodes h) with
   | None => (h, Raise RuntimeError)
   | Some (nodes', names', next') =>
       (mkSt (names0 ++ names' ++ s_names h) nodes' gin' (s_cfgs h) next' (s_nextc h) (s_ir h) (s_sc h), Ok tt)
@@ -485,7 +495,7 @@ Inductive op :=
 | OResizeOut (n : Z) (k : Z)
 | OResizeIn (n : Z) (k : Z)
 | ORemoveNode (n : Z)
-| OClone
+| OClone (deep allow : bool)
 | ORoundTrip.
 
 Definition on_node (h : state) (n : Z) (f : node -> res node) : state * res unit :=
@@ -509,7 +519,7 @@ Definition exec (h : state) (o : op) : state * res unit :=
   | OResizeOut n k => resize_outputs h n k
   | OResizeIn n k => on_node h n (fun nd => resize_inputs_nd nd k)
   | ORemoveNode n => remove_node h n
-  | OClone => clone h
+  | OClone deep allow => clone h deep allow
   | ORoundTrip => roundtrip h
   end.
 
